@@ -16,6 +16,7 @@ import (
 	"runtime"
 	"strings"
 	"sync"
+	"time"
 
 	"github.com/aperturerobotics/bifrost/peer"
 
@@ -30,6 +31,12 @@ const (
 	rWatch
 	rRelease
 	rRestart
+	// rPending: a request added WHILE the node's execution ends and the next one
+	// begins (the AddDirective call is held by a park handler of the harness
+	// between asking the handlers and attaching their resolvers): the resolver of
+	// the ended execution's handler is attached after that handler was removed,
+	// so the request stays pending with it across every later restart.
+	rPending
 )
 
 // peer table of a restart case:
@@ -64,6 +71,15 @@ func (o rop) String() string {
 		return fmt.Sprintf("W(%d>%d)", o.src, o.dst)
 	case rRelease:
 		return fmt.Sprintf("R%d", o.wi)
+	case rPending:
+		x := "e"
+		if o.cancel {
+			x = "c"
+		}
+		if o.ctorFails > 0 {
+			x += fmt.Sprintf("+ctorfail%d", o.ctorFails)
+		}
+		return fmt.Sprintf("P(%d>%d over X%d%s)", o.src, o.dst, o.node, x)
 	default:
 		s := fmt.Sprintf("X%d", o.node)
 		if o.cancel {
@@ -223,6 +239,47 @@ func genRCase(rng interface{ IntN(int) int }, id int) *rcaseSpec {
 	return cs
 }
 
+// addPendingPlan turns a case with a floating node 0 into one of the "request
+// for the former identity pending across an identity change" class: at the
+// start a request (identity of node 0 at that moment -> remote d) is added
+// while the execution of node 0 ends and is replaced by one with the SAME
+// identity (1 in 2 with a link to another remote peer up, which the exit drops); the
+// generated history runs unchanged in between; at the end node 0 is restarted
+// twice with the local peer on the bus replaced each time, and in each of the
+// two executions (at least one of which has another identity than the one
+// the request names) a link to d comes up. Oracle unchanged.
+func addPendingPlan(rng interface{ IntN(int) int }, cs *rcaseSpec) {
+	if !cs.floating {
+		return
+	}
+	zs := rng.IntN(4)
+	d := cs.slots[0][zs].remote
+	var pre []rop
+	// (a link to d itself must not be up yet: the controller holds a request
+	// (own identity -> d) for every link it has, which the new request would
+	// merely join without any handler being asked)
+	if o := (zs + 1) % 4; rng.IntN(2) == 0 && cs.slots[0][o].remote != d {
+		pre = append(pre, rop{kind: rEst, node: 0, slot: o})
+	}
+	z := rop{kind: rPending, node: 0, src: pCur0, dst: d, cancel: rng.IntN(3) == 0}
+	if rng.IntN(6) == 0 {
+		z.ctorFails = 1
+	}
+	pre = append(pre, z)
+	if rng.IntN(3) == 0 { // the link comes up again in the new execution (same identity: a right value)
+		pre = append(pre, rop{kind: rEst, node: 0, slot: zs})
+	}
+	cs.prologue = append(pre, cs.prologue...)
+	var tail []rop
+	for k := 0; k < 2; k++ {
+		tail = append(tail, rop{kind: rRestart, node: 0, swap: true, cancel: rng.IntN(3) == 0}, rop{kind: rEst, node: 0, slot: zs})
+		if rng.IntN(3) == 0 {
+			tail = append(tail, rop{kind: rEst, node: 0, slot: rng.IntN(4)})
+		}
+	}
+	cs.epilogue = append(tail, cs.epilogue...)
+}
+
 // rlinkMeta is what the harness knows about a fake link of a restart case.
 type rlinkMeta struct {
 	node int
@@ -314,7 +371,7 @@ func (c *rcaseRun) linkFor(ni int, inc *g6link.Incarnation, slot int, create boo
 
 func (c *rcaseRun) describe() map[string]any {
 	w := map[string]any{"case": c.cs.id, "spec": c.cs.sig(),
-		"legend": "E<node>.<slot> / L<node>.<slot>: the transport of the node's current execution reports the link of that slot established / lost; W(src>dst): add EstablishLinkWithPeer (peer table: 0 empty, 1 L0, 2 L1, 3 L2, 4-6 remote identities, 7 / 8 the identity node 0 / 1 has at that moment); R: release; X<node>e / X<node>c: the node's execution ends by a transport error / by cancelling its context and the same Controller instance is executed again (+swap: the local peer on the bus is replaced first, +ctorfailN: the next N executions end in the constructor)",
+		"legend":     "E<node>.<slot> / L<node>.<slot>: the transport of the node's current execution reports the link of that slot established / lost; W(src>dst): add EstablishLinkWithPeer (peer table: 0 empty, 1 L0, 2 L1, 3 L2, 4-6 remote identities, 7 / 8 the identity node 0 / 1 has at that moment); R: release; X<node>e / X<node>c: the node's execution ends by a transport error / by cancelling its context and the same Controller instance is executed again (+swap: the local peer on the bus is replaced first, +ctorfailN: the next N executions end in the constructor)",
 		"peer_table": map[string]string{"1": g6link.Short(c.table[1]), "2": g6link.Short(c.table[2]), "3": g6link.Short(c.table[3]), "4": g6link.Short(c.table[4]), "5": g6link.Short(c.table[5]), "6": g6link.Short(c.table[6])}}
 	var ex []string
 	for ni, n := range c.w.RNodes {
@@ -416,67 +473,150 @@ func (c *rcaseRun) runOps(ops []rop, phase string) {
 				mine = append(mine[:k], mine[k+1:]...)
 			}
 		case rRestart:
-			n := c.w.RNodes[o.node]
-			inc := n.Cur()
-			if inc == nil {
-				c.r.Count("restart_skipped_already_restarting", 1)
-				break
-			}
-			if o.swap && n.Cfg == "" {
-				c.swapMu.Lock()
-				old := c.onBus
-				c.onBus = 3 - old
-				c.w.RemovePeer(c.table[old])
-				err := c.w.AddPeer(c.pool[3-old-1])
-				c.swapMu.Unlock()
-				if err != nil {
-					c.inconclusive("cannot add peer controller: " + err.Error())
-					return
-				}
-				c.r.Count("restart_local_peer_on_the_bus_replaced", 1)
-			}
-			if o.ctorFails > 0 {
-				n.FailNextCtor(o.ctorFails)
-			}
-			up := 0
-			if snap := n.Ctrl.VerifSnapshotLinks(); snap != nil {
-				up = len(snap.Links) // statistics only
-			}
-			if o.cancel {
-				inc.CancelExec()
-				c.r.Count("restart_exits_by_context_cancel", 1)
-			} else {
-				inc.Fail(errors.New("verif: listener failed"))
-				c.r.Count("restart_exits_by_transport_error", 1)
-			}
-			ctx, cancel := context.WithTimeout(c.w.Ctx, g6link.Watchdog)
-			next, err := n.WaitUp(ctx, inc.K+1)
-			cancel()
-			if err != nil {
-				c.inconclusive(fmt.Sprintf("node %d did not come up again after its execution %d ended: %v", o.node, inc.K, err))
+			if !c.doRestart(o) {
 				return
 			}
-			c.mu.Lock()
-			c.restarts++
-			if next.ID != inc.ID {
-				c.idChanges++
-			}
-			c.mu.Unlock()
-			c.r.Count("restart_restarts", 1)
-			if up > 0 {
-				c.r.Count("restart_restarts_with_links_up_at_the_exit", 1)
-			}
-			if next.ID != inc.ID {
-				c.r.Count("restart_restarts_with_identity_change", 1)
-			}
-			if n.ViaLoader {
-				c.r.Count("restart_restarts_by_the_real_loader", 1)
+		case rPending:
+			if !c.doPending(o, phase) {
+				return
 			}
 		}
 		if o.yield {
 			runtime.Gosched()
 		}
 	}
+}
+
+// doRestart ends the current execution of the node and waits for the next one
+// (false: the case cannot go on, an inconclusive was recorded).
+func (c *rcaseRun) doRestart(o rop) bool {
+	n := c.w.RNodes[o.node]
+	inc := n.Cur()
+	if inc == nil {
+		c.r.Count("restart_skipped_already_restarting", 1)
+		return true
+	}
+	if o.swap && n.Cfg == "" {
+		c.swapMu.Lock()
+		old := c.onBus
+		c.onBus = 3 - old
+		c.w.RemovePeer(c.table[old])
+		err := c.w.AddPeer(c.pool[3-old-1])
+		c.swapMu.Unlock()
+		if err != nil {
+			c.inconclusive("cannot add peer controller: " + err.Error())
+			return false
+		}
+		c.r.Count("restart_local_peer_on_the_bus_replaced", 1)
+	}
+	if o.ctorFails > 0 {
+		n.FailNextCtor(o.ctorFails)
+	}
+	up := 0
+	if snap := n.Ctrl.VerifSnapshotLinks(); snap != nil {
+		up = len(snap.Links) // statistics only
+	}
+	if o.cancel {
+		inc.CancelExec()
+		c.r.Count("restart_exits_by_context_cancel", 1)
+	} else {
+		inc.Fail(errors.New("verif: listener failed"))
+		c.r.Count("restart_exits_by_transport_error", 1)
+	}
+	ctx, cancel := context.WithTimeout(c.w.Ctx, g6link.Watchdog)
+	next, err := n.WaitUp(ctx, inc.K+1)
+	cancel()
+	if err != nil {
+		c.inconclusive(fmt.Sprintf("node %d did not come up again after its execution %d ended: %v", o.node, inc.K, err))
+		return false
+	}
+	c.mu.Lock()
+	c.restarts++
+	if next.ID != inc.ID {
+		c.idChanges++
+	}
+	c.mu.Unlock()
+	c.r.Count("restart_restarts", 1)
+	if up > 0 {
+		c.r.Count("restart_restarts_with_links_up_at_the_exit", 1)
+	}
+	if next.ID != inc.ID {
+		c.r.Count("restart_restarts_with_identity_change", 1)
+	}
+	if n.ViaLoader {
+		c.r.Count("restart_restarts_by_the_real_loader", 1)
+	}
+	return true
+}
+
+// doPending: see rPending.
+func (c *rcaseRun) doPending(o rop, phase string) bool {
+	n := c.w.RNodes[o.node]
+	if inc := n.Cur(); !inc.Stable() {
+		c.r.Count("restart_pending_request_skipped_node_not_up", 1)
+		return true
+	}
+	src, dst := c.pid(o.src), c.pid(o.dst)
+	rw := &rwatch{op: o, phase: phase}
+	for _, nn := range c.w.RNodes {
+		rw.minInc = append(rw.minInc, nn.Exits())
+		rw.calm = append(rw.calm, false)
+	}
+	ph, err := c.w.AddParkHandler(src, dst)
+	if err != nil {
+		c.inconclusive("cannot add the park handler: " + err.Error())
+		return false
+	}
+	defer ph.Remove()
+	ph.Arm()
+	type res struct {
+		wa  *g6link.Watch
+		err error
+	}
+	done := make(chan res, 1)
+	go func() {
+		wa, err := c.w.NewWatch(src, dst)
+		done <- res{wa, err}
+	}()
+	var got *res
+	wd := time.NewTimer(g6link.Watchdog)
+	defer wd.Stop()
+	select {
+	case <-ph.Entered():
+		c.r.Count("restart_requests_held_between_handler_call_and_resolver_attach", 1)
+		ro := o
+		ro.kind, ro.swap = rRestart, false
+		if !c.doRestart(ro) {
+			ph.Open()
+			<-done
+			return false
+		}
+	case x := <-done:
+		// an equivalent directive existed: no handler was asked
+		got = &x
+		c.r.Count("restart_pending_request_joined_an_existing_directive", 1)
+	case <-wd.C:
+		c.inconclusive("the AddDirective call never reached the park handler")
+		ph.Open()
+		<-done
+		return false
+	}
+	ph.Open()
+	if got == nil {
+		x := <-done
+		got = &x
+	}
+	if got.err != nil {
+		c.inconclusive("AddDirective failed: " + got.err.Error())
+		return true
+	}
+	rw.wa = got.wa
+	c.mu.Lock()
+	c.watches = append(c.watches, rw)
+	c.mu.Unlock()
+	c.r.Count("restart_directives_added", 1)
+	c.r.Count("restart_directives_added_while_an_execution_ended_and_the_next_began", 1)
+	return true
 }
 
 func runRestartCase(r *vf.Run, pool []*keys.Identity, cs *rcaseSpec) {
